@@ -702,14 +702,13 @@ pub fn interpret(prog: &Program, tape: &Tape, c: &mut Composer) -> Result<(), Er
 
 // ------------------------------------------------------------------ Circuit
 
-thread_local! {
-    static CURRENT: RefCell<Option<Arc<Program>>> = const { RefCell::new(None) };
-}
+// process-global (not thread-local): under the real-rayon probe `C::default()` may run on a pool thread
+static CURRENT: std::sync::Mutex<Option<Arc<Program>>> = std::sync::Mutex::new(None);
 
 /// The program `ProgCircuit::default()` (and therefore `Compiler::compile::<C>`
 /// and `Circuit::compress()`) refers to.
 pub fn set_current(p: Option<Arc<Program>>) {
-    CURRENT.with(|c| *c.borrow_mut() = p);
+    *CURRENT.lock().unwrap_or_else(|e| e.into_inner()) = p;
 }
 
 #[derive(Clone, Debug)]
@@ -720,7 +719,7 @@ pub struct ProgCircuit {
 
 impl Default for ProgCircuit {
     fn default() -> Self {
-        let prog = CURRENT.with(|c| c.borrow().clone()).expect("current program set");
+        let prog = CURRENT.lock().unwrap_or_else(|e| e.into_inner()).clone().expect("current program set");
         ProgCircuit { prog, tape: Tape::default() }
     }
 }
